@@ -169,10 +169,17 @@ static int hdr_ref_variant (const unsigned char *h, int end, int *pos, int le, i
   a = body_ref_alignment (h[*sig_at]);
   if (a == 0) return 0;
   { int p2 = *pos; if (!body_ref_pad (h, end, &p2, a)) return 0; *val_at = p2; }
-  /* the contained value: body_ref_value pads, checks and advances (the signature text is NUL-terminated in place) */
-  /* a variant inside a field value is legal D-Bus, but body_ref_value (spec/body_ref.h) does not decode 'v':
-   * answer -1 = "outside what this reference decodes"; the bounded units exclude these inputs and say so */
-  { int k; for (k = 0; k < n; k++) if (h[*sig_at + k] == 'v') return -1; }
+  /* fixed-size basic types ("Marshaling": BYTE 1; INT16/UINT16 2; BOOLEAN/INT32/UINT32/UNIX_FD 4; INT64/UINT64/DOUBLE 8):
+   * decoded here, with the position advanced unconditionally (keeps positions concrete for the model checker) */
+  if (n == 1 && (a == 2 || a == 8 || h[*sig_at] == 'y' || h[*sig_at] == 'b' || h[*sig_at] == 'i' || h[*sig_at] == 'u' || h[*sig_at] == 'h')
+      && h[*sig_at] != '(' && h[*sig_at] != '{')
+    {
+      int size = h[*sig_at] == 'y' ? 1 : a;
+      *pos = *val_at + size;
+      if (*pos > end) return 0;
+      if (h[*sig_at] == 'b') { unsigned bv = body_ref_u32 (h, *val_at, le); return bv == 0 || bv == 1; }
+      return 1;
+    }
   return body_ref_value ((const char *) h + *sig_at, 0, h, end, pos, le, 2);
 }
 
@@ -191,7 +198,7 @@ static int hdr_ref_walk (const unsigned char *h, int n, struct hdr_ref_fields *o
   fal = hdr_ref_fields_len (h);
   if (fal > 67108864u || fal > (unsigned) (n - 16)) return 0;
   pos = 16; end = 16 + (int) fal;
-  for (k = 0; k < HDR_REF_MAXFIELDS + 1; k++)
+  for (k = 0; k < HDR_REF_MAXFIELDS; k++)      /* HDR_REF_MAXFIELDS >= the number of elements that fit: an element takes >= 5 bytes from an 8-aligned start */
     {
       int code, sig_at, sig_len, v_at;
       if (pos == end) { out->wf = 1; return 1; }
